@@ -312,13 +312,33 @@ class Executor:
         if k == "Or":
             # first alternative that can match decides; symbolic → disjunction (bindings of or-patterns
             # are not used in anchored code)
+            # alternatives that bind variables: the bindings are those of the alternative the path condition selects;
+            # when it selects none, the bound variables are unknown (fresh symbols), never those of some alternative
             cond = False
+            open_alts = []
+            env0 = dict(st.env)
             for sp in p["pats"]:
-                c = self.match_pat(sp, v, st)
+                s_try = st.fork()
+                s_try.env = dict(env0)
+                c = self.match_pat(sp, v, s_try)
+                if c is not True and c is not False:
+                    d = st.decide(c)
+                    if d is not None:
+                        c = d
                 if c is True:
-                    return True
+                    st.env.update(s_try.env)
+                    return True if cond is False else app("or", cond, TRUE) if False else True
                 if c is not False:
+                    open_alts.append(s_try)
                     cond = c if cond is False else app("or", cond, c)
+            if open_alts:
+                bound = {k for s2 in open_alts for k, val in s2.env.items() if env0.get(k) != val}
+                if len(open_alts) == 1:
+                    st.env.update(open_alts[0].env)
+                else:
+                    for k in bound:
+                        vals = {s2.env.get(k) for s2 in open_alts}
+                        st.env[k] = vals.pop() if len(vals) == 1 else ("sym", next(self.counter), "or-pattern binding")
             return cond
         if k in ("TupleStruct", "Struct", "Path"):
             res = p.get("res") or {}
@@ -329,7 +349,7 @@ class Executor:
                 return self._bind_fields(p, v, st, None)
             if variant is None and k == "Path":
                 # constant pattern
-                return app("eq", v, ("app", "const", (lit(res.get("path")),)))
+                return self.binop("Eq", v, self.const_value(res.get("path")))
             # Option/Result sugar
             if variant in ("Some", "None", "Ok", "Err") and adt in ("std::option::Option", "std::result::Result"):
                 return self._match_optres(p, v, st, variant)
@@ -484,7 +504,7 @@ class Executor:
             if dk in ("Fn", "AssocFn"):
                 return [(st, ("val", ("fnref", (n.get("callee") or {}).get("inst") or r["path"], n.get("callee"))))]
             if dk.startswith("Const") or dk.startswith("AssocConst") or dk.startswith("Static"):
-                return [(st, ("val", app("const", lit(r["path"]))))]
+                return [(st, ("val", self.const_value(r["path"], static=dk.startswith("Static"))))]
         if r["k"] == "SelfCtor":
             return [(st, ("val", ("fnref", "ctor:" + r["path"], None)))]
         return [(st, ("val", ("unknown", "path %s" % r)))]
@@ -1144,7 +1164,60 @@ class Executor:
             return v
         return ("iter", v, "fwd", ())
 
+    def const_value(self, path, static=False):
+        """a crate-local `const` / associated const is its initialiser when that evaluates, without effects, to a closed
+        value (a literal, or a constructor / array / tuple of such); otherwise the opaque term const(path)"""
+        opaque = app("const", lit(path))
+        if static:
+            return opaque
+        memo = self.__dict__.setdefault("_consts", {})
+        if path in memo:
+            return memo[path]
+        memo[path] = opaque          # recursion guard
+        bs = [b for b in self.fx.hir_by_path.get(path, []) if str(b.get("dk", "")).startswith(("Const", "AssocConst"))]
+        if len(bs) == 1:
+            try:
+                res = self.ev(bs[0]["value"], State())
+            except Exception:   # noqa
+                res = []
+            if len(res) == 1 and res[0][1][0] == "val" and not res[0][0].eff and _closed(res[0][1][1]):
+                memo[path] = res[0][1][1]
+        return memo[path]
+
+    def _while_let_next(self, n, st):
+        """`while let Some(PAT) = IT.next() { BODY }` over a local iterator is `for PAT in IT { BODY }` (a body that
+        advances IT itself shows that as `next` calls on the iterator inside the pass). Returns (pat, iterator, body)."""
+        if n.get("src") != "While":
+            return None
+        blk = n["body"]
+        if blk.get("stmts") or not blk.get("expr"):
+            return None
+        iff = peel(blk["expr"])
+        if iff.get("k") != "If" or peel(iff["cond"]).get("k") != "Let" or "else" not in iff:
+            return None
+        let = peel(iff["cond"])
+        pat, init = let["pat"], peel(let["init"])
+        if pat.get("k") != "TupleStruct" or (pat.get("res") or {}).get("variant") != "Some" or len(pat.get("pats", [])) != 1:
+            return None
+        if init.get("k") != "MethodCall" or init["name"] != "next" or init["args"]:
+            return None
+        rcv = peel(init["recv"])
+        if rcv.get("k") != "Path" or (rcv.get("res") or {}).get("k") != "Local":
+            return None
+        itv = st.env.get(rcv["res"]["lid"])
+        if not (isinstance(itv, tuple) and itv[:1] == ("iter",)):
+            return None
+        els = peel(iff["else"])
+        eb = els.get("block") if els.get("k") == "Block" else None
+        only_break = eb is not None and not eb.get("expr") and len(eb.get("stmts", [])) == 1 and peel(eb["stmts"][0].get("e") or {}).get("k") == "Break"
+        if not only_break:
+            return None
+        return pat["pats"][0], itv, iff["then"]
+
     def ev_Loop(self, n, st):
+        wl = self._while_let_next(n, st)
+        if wl is not None:
+            return self.run_loop(st, "foreach", n["id"], wl[1], wl[0], wl[2], n)[0]
         src = n.get("src")
         body = n["body"]
         loop_id = n["id"]
@@ -1225,11 +1298,30 @@ class Executor:
         path = cal.get("inst") or cal.get("def")
         return self.bind(self.ev_list(n["args"], st), lambda s, vs: self.call_path(path, cal, None, list(vs), n, s))
 
+    # in-place operations that give the *same variable* a different sequence value
+    INPLACE = {"sort": "sorted", "sort_unstable": "sorted", "sort_by": "sorted", "sort_by_key": "sorted", "sort_unstable_by": "sorted",
+               "sort_unstable_by_key": "sorted", "sort_by_cached_key": "sorted", "dedup": "dedup", "dedup_by": "dedup", "dedup_by_key": "dedup",
+               "retain": "retained", "retain_mut": "retained", "rotate_left": "permuted", "rotate_right": "permuted", "swap": "permuted",
+               "shuffle": "permuted", "truncate": "shrunk", "drain": "shrunk", "swap_remove": "shrunk", "clear": "shrunk", "split_off": "shrunk"}
+
     def ev_MethodCall(self, n, st):
         cal = n.get("callee") or {}
         path = cal.get("inst") or cal.get("def") or ("?::" + n["name"])
-        return self.bind(self.ev_list([n["recv"]] + n["args"], st),
-                         lambda s, vs: self.call_path(path, cal, vs[0], list(vs[1:]), n, s))
+        head = self.INPLACE.get(n["name"])
+        rcv = peel(n["recv"]) if head else None
+        lid = rcv["res"]["lid"] if rcv and rcv.get("k") == "Path" and (rcv.get("res") or {}).get("k") == "Local" else None
+
+        def k(s, vs):
+            res = self.call_path(path, cal, vs[0], list(vs[1:]), n, s)
+            if lid is not None and isinstance(vs[0], tuple) and vs[0][:1] not in (("obj",), ("iter",)) and not (cal.get("local") or cal.get("inst_local")):
+                # `xs.sort_by_key(f)` on a variable that holds a sequence *term* (a parameter, a field, a collected copy of
+                # one): from here on the variable holds the reordered / shrunk sequence, not the original one
+                new = app(head, vs[0], *vs[1:])
+                for s2, o in res:
+                    if s2.env.get(lid) == vs[0]:
+                        s2.env[lid] = new
+            return res
+        return self.bind(self.ev_list([n["recv"]] + n["args"], st), k)
 
     def call_path(self, path, cal, recv, args, node, st):
         """Dispatch a resolved call. recv is the receiver term for method syntax (else None)."""
@@ -1306,6 +1398,20 @@ class Executor:
             self.effect(st, kind, spec.get("args", ()), result=r, node=node, **spec.get("extra", {}))
             return [(st, ("val", r))]
         raise Unsupported("tracked result kind " + res_kind)
+
+
+def _closed(t):
+    if not isinstance(t, tuple) or not t:
+        return False
+    if t[0] == "lit":
+        return True
+    if t[0] == "ctor":
+        return all(_closed(v) for _, v in t[3])
+    if t[0] == "tuple":
+        return all(_closed(v) for v in t[1])
+    if t[0] == "app" and t[1] in ("array", "cast", "neg"):
+        return all(_closed(v) for v in t[2])
+    return False
 
 
 def vec_contents(obj, effs):
